@@ -1,7 +1,10 @@
 #!/bin/bash
+# integrator tool: run the thorough check of every claimed property on /repo, N at a time (default 3), and summarise
 cd /verif
-for id in $(python3 -c "import json;print(' '.join(c['property_id'] for c in json.load(open('MANIFEST.json'))['checks']))"); do
-  s=$(date +%s); out=$(./check $id --tier thorough 2>&1); rc=$?; e=$(date +%s)
-  echo "$id rc=$rc $((e-s))s $(echo "$out" | grep -E "^C[0-9]+ thorough" | sed 's/^C[0-9]* thorough: //')"
-  echo "$out" | grep -E "^(VIOLATION|  failing|  no longer|  \[obl)" | cut -c1-300
-done
+N=${1:-3}
+ids=$(python3 -c "import json;print(' '.join(c['property_id'] for c in json.load(open('MANIFEST.json'))['checks']))")
+run1() { id=$1; s=$(date +%s); out=$(./check $id --tier thorough 2>&1); rc=$?; e=$(date +%s)
+  { echo "$id rc=$rc $((e-s))s $(echo "$out" | grep -E "^C[0-9]+ thorough" | sed 's/^C[0-9]* thorough: //')"
+    echo "$out" | grep -E "^(VIOLATION|  failing|  no longer|  \[obl)" | cut -c1-300 | head -12; } ; }
+export -f run1
+echo $ids | tr ' ' '\n' | xargs -P $N -I{} bash -c 'run1 {}'
